@@ -165,7 +165,11 @@ class UnitOfWork(object):
         """
         target = operation.target
         version_obj = self.get_or_create_version_object(target)
-        version_obj.operation_type = operation.type
+        setattr(
+            version_obj,
+            self.manager.option(target, 'operation_type_column_name'),
+            operation.type
+        )
         self.assign_attributes(target, version_obj)
 
         self.manager.plugins.after_create_version_object(
@@ -291,7 +295,9 @@ class UnitOfWork(object):
                     sa.and_(*[
                         stmt.table.c[key] == value
                         for key, value in stmt.compile().params.items()
-                        if key != 'operation_type'
+                        if key != self.manager.options[
+                            'operation_type_column_name'
+                        ]
                     ])
                 )
             )
